@@ -475,7 +475,12 @@ def apply_rules(s, rules, st, label='rule'):
             bump(st, '%s:%s' % (label, pat[:50]), k)
             s = s2
             continue
-        if k == 0 or (count is not None and k != count):
+        if k == 0 and count != '!':
+            # a rule that does not fire is not an error by itself: whatever it was meant to rewrite either is gone (then the
+            # contract decides) or is still there as C++ (then goto-cc rejects the unit: exit 2).  '!' marks the essential ones.
+            bump(st, '%s-unfired:%s' % (label, pat[:50]))
+            continue
+        if k == 0 or (isinstance(count, int) and k > count):
             raise ExtractError('%s %d %r fired %d time(s), expected %s' % (label, idx, pat[:70], k, count if count is not None else '>=1'))
         bump(st, '%s:%s' % (label, pat[:50]), k)
         s = s2
